@@ -35,6 +35,15 @@ def mutate(v, depth=0):
     return n
 
 
+def sdigest(schema):
+    """the structural digest as text; a schema object whose description can no longer even be read (a default that is no
+    longer a ValueInfo, ...) has certainly changed"""
+    try:
+        return enc(F.digest(schema))
+    except Exception as e:
+        return "undigestible:%s:%s" % (type(e).__name__, e)
+
+
 def run(ctx):
     obligations, discharged, names = core.standard_prelude(ctx, ["ZCV.Props.C13"])
     rng = ctx.rng
@@ -46,7 +55,7 @@ def run(ctx):
             sd, real, elab, hn = cfgstream.make_schema(rng, False)
             if not cfgstream.check_digest(ctx, sd, real, elab):
                 continue
-            d0 = enc(F.digest(real))
+            d0 = sdigest(real)
             abss = [n for n, te in elab[1] if te[0] == "abstract"]
             pkg = None
             if abss:
@@ -90,14 +99,14 @@ def run(ctx):
                     if cfg is not None:
                         ctx.count("mutated-containers", mutate(cfg))
                         seq.append({"op": "mutated the returned configuration"})
-                d1 = enc(F.digest(real))
+                d1 = sdigest(real)
                 if d1 != d0:
-                    only_subtypes = _only_subtypes_differ(F.digest(real), F.digest(F.load_real(sd)))
+                    only_subtypes = (not d1.startswith('undigestible')) and _only_subtypes_differ(F.digest(real), F.digest(F.load_real(sd)))
                     imp = any(s.get("op") == "import" for s in seq)
                     ctx.violate("the schema's own description changed after %d operations" % len(seq), rep,
                                 signature="C13:digest:" + ("abstract-implementers-grow-after-import" if only_subtypes and imp else "changed"))
                     real = F.load_real(sd)
-                    d0 = enc(F.digest(real))
+                    d0 = sdigest(real)
             if nloads >= 2:
                 ctx.nontriv((id(sd), len(seq)))
             if seq:
@@ -106,11 +115,11 @@ def run(ctx):
         sd = F.SchemaD([F.SectD("ab0", "*", True, False, "s_ab0")], [F.AbsD("ab0")])
         pa = pk.add_component([F.TypeD("leak", [], implements="ab0")])
         real = F.load_real(sd)
-        d0 = enc(F.digest(real))
+        d0 = sdigest(real)
         lines = ["%import " + pa, "<leak/>"]
         out, _, _ = cfgrun.real_load(real, "\n".join(lines) + "\n", cfgstream.URL)
         ctx.evaluations += 1
-        if enc(F.digest(real)) != d0:
+        if sdigest(real) != d0:
             ctx.violate("the schema's own description changed after a load with %import",
                         {"schema_xml": F.render_xml(sd), "sequence": [{"op": "import", "lines": lines, "outcome": out[:2]}],
                          "subtypes_after": cfgrun.subtypes_table(real)},
